@@ -100,11 +100,19 @@ def Out.tlsUnits (o : Out) : List Bytes := match o.tls with | some c => c.sent.r
     unless `accept_invalid_hostnames` -/
 inductive Cert | good | wrongName | selfSigned | expired deriving Repr, DecidableEq
 
-def expectHandshake (cert : Cert) (addRoot aic aih : Bool) : Bool :=
-  aic || (addRoot && (match cert with
+/-- which roots the configured connector trusts: `anchored` = the chain of the test certificates leads to one of them.
+    `addRoot` 1 = the test CA was added, 2 = a root that signed nothing was added; `storeNone` = `CertificateStore::None`;
+    `platform` = the platform's default roots contain the test CA.  An added root adds to the store that was chosen, it
+    never brings the platform's roots back. -/
+def anchored (addRoot : Nat) (storeNone platform : Bool) : Bool := addRoot == 1 || (platform && !storeNone)
+
+def expectHandshakeA (cert : Cert) (anch aic aih : Bool) : Bool :=
+  aic || (anch && (match cert with
     | .good => true
     | .wrongName => aih
     | .selfSigned => false
     | .expired => false))
+
+def expectHandshake (cert : Cert) (addRoot aic aih : Bool) : Bool := expectHandshakeA cert addRoot aic aih
 
 end LV.Tls
